@@ -445,7 +445,7 @@ def run_check(prop_id, tier, seed, replay=None):
     t0 = time.time()
     P = importlib.import_module('props.' + prop_id.lower())
     rng = random.Random(seed * 1000003 + int(prop_id[1:]))
-    ev_path = os.path.join(VERIF, 'evidence', f'{prop_id}.json')
+    ev_path = os.path.join(os.environ.get('VERIF_EVIDENCE_DIR') or os.path.join(VERIF, 'evidence'), f'{prop_id}.json')   # the override is for runs against scratch trees (seedcheck)
     broken = []       # reasons the proof/tie is broken (strings)
     notes = []
     lean_log = ''
